@@ -7,23 +7,40 @@ From VF Require Import Base.Sx Jinja.PosixPath Jinja.PosixPathProofs Jinja.Engin
 Import ListNotations.
 Local Open Scope nat_scope.
 
-(* For every configuration (loader kind, cache setting, include mode, base context) and every
-   history of edits (create / change / delete any file) and renders (any template, any caller
-   context), the long-lived engine returns for each render what a fresh engine returns.
-   Built into the history semantics: every edit gives the file a version not used before. *)
-Theorem C17_edits_visible : forall fuel cfg h, arity_bug cfg = false ->
+(* The engine's own loader (no root_dir; cache on or off): for every include mode, base context and every
+   history of edits (create / change / delete any file - also edits that leave the mtime as it was) and
+   renders (any template, any caller context), the long-lived engine returns for each render what a fresh
+   engine returns.  Assumption built into the history semantics: every edit gives the file a new stat
+   version (ctime_ns, mtime_ns, ino, size) - the kernel moves ctime on every write. *)
+Theorem C17_edits_visible : forall fuel cfg h, arity_bug cfg = false -> root_dir cfg = None ->
   run fuel cfg est0 h = run_fresh fuel cfg est0 h.
-Proof. exact edits_visible. Qed.
+Proof.
+  intros fuel cfg h Hb Hr. apply edits_visible; auto. unfold history_ok, fsl_cached. now rewrite Hr.
+Qed.
 Print Assumptions C17_edits_visible.
 
-(* ... and both are the cache-free specification of rendering *)
-Theorem C17_render_is_spec : forall fuel cfg h, arity_bug cfg = false ->
+(* All four loader variants.  history_ok cfg h: with root_dir AND cache_enabled (jinja2.FileSystemLoader,
+   whose up-to-date test is the mtime alone) every edit of the history must change the MTIME; in every other
+   configuration nothing is assumed beyond the new stat version.  What is excluded is exactly the
+   situation of C17_refuted_D18_fsl_mtime_only below. *)
+Theorem C17_edits_visible_partial : forall fuel cfg h, arity_bug cfg = false -> history_ok cfg h = true ->
+  run fuel cfg est0 h = run_fresh fuel cfg est0 h.
+Proof. exact edits_visible. Qed.
+Print Assumptions C17_edits_visible_partial.
+
+(* a fresh engine renders the cache-free specification after ANY history, in every configuration *)
+Theorem C17_fresh_is_spec : forall fuel cfg h, arity_bug cfg = false ->
+  run_fresh fuel cfg est0 h = run_spec fuel cfg est0 h.
+Proof. exact fresh_is_spec. Qed.
+Print Assumptions C17_fresh_is_spec.
+
+Theorem C17_render_is_spec : forall fuel cfg h, arity_bug cfg = false -> history_ok cfg h = true ->
   run fuel cfg est0 h = run_spec fuel cfg est0 h.
-Proof. intros. apply run_is_spec; auto using good0. Qed.
+Proof. intros. apply run_is_spec; auto using inv0. Qed.
 Print Assumptions C17_render_is_spec.
 
 (* the up-to-date callback never raises, and a render fails only if a fresh engine's fails *)
-Theorem C17_render_never_fails_from_cache : forall fuel cfg h, arity_bug cfg = false ->
+Theorem C17_render_never_fails_from_cache : forall fuel cfg h, arity_bug cfg = false -> history_ok cfg h = true ->
   ~ In ETypeError (run fuel cfg est0 h) /\
   (forall k, nth_error (run fuel cfg est0 h) k = nth_error (run_fresh fuel cfg est0 h) k).
 Proof. exact render_never_fails_from_cache. Qed.
@@ -76,7 +93,7 @@ Proof. destruct r; cbn; auto. apply EngineProofs.bytes_eqb_refl. Qed.
 Theorem C17_holds : forall c, valid c -> holds c (run_model c) = [].
 Proof.
   intros [cfg h|cut limit allow qs]; cbn [valid].
-  - intros Hb. cbn [run_model holds]. rewrite run_is_spec by auto using good0.
+  - intros [Hb Hh]. cbn [run_model holds]. rewrite run_is_spec by auto using inv0.
     now rewrite (list_eqb_refl res_eqb res_eqb_refl).
   - intros ->. cbn [run_model]. destruct (C17_allow_cache_transparent limit allow qs) as [H1 H2].
     destruct (check_all 1 limit allow [] qs) as [c' bs]. cbn [fst snd] in H1, H2. subst bs. cbn [holds].
@@ -90,7 +107,7 @@ Definition MAIN : bytes := [109]%N.                              (* "m" *)
 Definition cfg_d12 (bug : bool) : config :=
   {| root_dir := Some R; cache_enabled := false; relative_includes := true; cwd := R; arity_bug := bug; base_ctx := [] |}.
 Definition hist_d12 : list step :=
-  [Edit (R ++ [47%N] ++ MAIN) (Some {| items := [Text [65%N]]; export := [] |}); Render MAIN []; Render MAIN []].
+  [Edit (R ++ [47%N] ++ MAIN) (Some {| items := [Text [65%N]]; export := [] |}) false; Render MAIN []; Render MAIN []].
 
 Theorem C17_refuted_old_callback_arity :
   run 3 (cfg_d12 true) est0 hist_d12 = [Ok [65%N]; ETypeError] /\
@@ -98,7 +115,7 @@ Theorem C17_refuted_old_callback_arity :
     ["render_never_fails_from_cache"%string].
 Proof. split; vm_compute; reflexivity. Qed.
 
-(* non-vacuity: a history with an edit of an included file between two renders, relative include from
+(* non-vacuity: a history with an (mtime-keeping) edit of an included file between two renders, relative include from
    a sub-directory, own loader with cache; the second render shows the new text *)
 Definition cfg_nv : config :=
   {| root_dir := None; cache_enabled := true; relative_includes := true; cwd := R; arity_bug := false;
@@ -106,15 +123,31 @@ Definition cfg_nv : config :=
 Definition P_MAIN : bytes := R ++ [47; 115; 47; 109]%N.          (* /r/s/m *)
 Definition P_INC : bytes := R ++ [47; 115; 47; 105]%N.           (* /r/s/i *)
 Definition hist_nv : list step :=
-  [Edit P_MAIN (Some {| items := [Text [77%N]; Var [97%N]; Include [105%N]]; export := [] |});
-   Edit P_INC (Some {| items := [Text [73%N]]; export := [] |});
+  [Edit P_MAIN (Some {| items := [Text [77%N]; Var [97%N]; Include [105%N]]; export := [] |}) false;
+   Edit P_INC (Some {| items := [Text [73%N]]; export := [] |}) false;
    Render P_MAIN [([97%N], [50%N])];
-   Edit P_INC (Some {| items := [Text [74%N]]; export := [] |});
+   Edit P_INC (Some {| items := [Text [74%N]]; export := [] |}) true;
    Render P_MAIN []].
 Example C17_nonvacuous :
   valid (CEngine cfg_nv hist_nv) /\
   run_model (CEngine cfg_nv hist_nv) = OEngine [Ok [77; 49; 73]%N; Ok [77; 49; 74]%N].
-Proof. split; [reflexivity | vm_compute; reflexivity]. Qed.
+Proof. split; [split; reflexivity | vm_compute; reflexivity]. Qed.
+
+(* ---- D18 (known finding, not repaired): root_dir + cache_enabled uses jinja2.FileSystemLoader, whose
+   up-to-date test compares st_mtime only; an edit that keeps the mtime is never noticed ---- *)
+Definition cfg_d18 : config :=
+  {| root_dir := Some R; cache_enabled := true; relative_includes := true; cwd := R; arity_bug := false; base_ctx := [] |}.
+Definition hist_d18 (keep : bool) : list step :=
+  [Edit (R ++ [47%N] ++ MAIN) (Some {| items := [Text [65%N]]; export := [] |}) false; Render MAIN [];
+   Edit (R ++ [47%N] ++ MAIN) (Some {| items := [Text [66%N]]; export := [] |}) keep; Render MAIN []].
+Theorem C17_refuted_D18_fsl_mtime_only :
+  run 5 cfg_d18 est0 (hist_d18 true) = [Ok [65%N]; Ok [65%N]] /\
+  run_fresh 5 cfg_d18 est0 (hist_d18 true) = [Ok [65%N]; Ok [66%N]] /\
+  holds (CEngine cfg_d18 (hist_d18 true)) (run_model (CEngine cfg_d18 (hist_d18 true))) = ["edits_visible"%string] /\
+  (* the same edit with a new mtime is noticed, and so is the mtime-keeping edit by the own loader *)
+  run 5 cfg_d18 est0 (hist_d18 false) = [Ok [65%N]; Ok [66%N]] /\
+  history_ok cfg_d18 (hist_d18 true) = false /\ history_ok cfg_d18 (hist_d18 false) = true.
+Proof. repeat split; vm_compute; reflexivity. Qed.
 
 (* the mutant prefix test startswith(allowed[:-2]) lets "osx" through "os.*" *)
 Example C17_allow_prefix_mutant :
